@@ -498,6 +498,17 @@ def gen_document_recipe(rng, python_form=True, alias_p=0.35):
     """a nested document recipe; with probability alias_p one container object (dict or list) is reachable
     from two places, as YAML anchors/merges or a Python description built around a shared sub-dictionary produce"""
     doc = gen_document(rng, python_form=python_form)
+    if rng.random() < 0.12:
+        # a large document (several buffer / chunk sizes long) dense in multi-byte characters
+        n = rng.choice([150, 400, 1200, 2500])
+        alphabet = ["Ω", "μ", "ä", "→", "R", "1", "€", "𝛀"]
+        bulk = []
+        for k in range(n):
+            bulk.append("".join(rng.choice(alphabet) for _ in range(rng.randint(2, 9))))
+            if k % 97 == 0:
+                z = cx(rng)
+                bulk.append(z if python_form else {"real": z.real, "imag": z.imag})
+        doc[rng.choice(["bulk", "Ωbulk"])] = bulk
     rec = {"kind": "value", "v": enc(doc)}
     if rng.random() >= alias_p:
         return rec
